@@ -59,5 +59,7 @@ func main() {
 			c.Set(fmt.Sprintf("box_N%d_depth_completed", b.n), st.MaxDepth)
 			c.Set(fmt.Sprintf("box_N%d_states", b.n), st.States)
 		}
+		// E-SCHED companion: the real Manager goroutines under concurrent pushers (5 scenarios x 3 subtree shards)
+		c.ForkSched(15, 16)
 	})
 }
